@@ -160,16 +160,24 @@ variable {c : Cfg} {p : PState} {t : Tid} {ch : Choice} {s' : Shared} {l' : Loc}
 theorem case_init (hs : Sim c p) (hpc : (c.loc t).pc = .init)
     (h : tstep c.sh t (c.loc t) ch = some (s', l', e)) : Simulated c p t s' l' e := by
   simp only [tstep, hpc] at h
-  split at h <;> try cases h
-  split at h <;> cases h
   have htx := hs.tx t
   simp only [absTx, hpc, if_true] at htx
-  refine ⟨p.setTx t {}, by simp [optStep, Proto.step, htx], ?_⟩
   have hstep : Proto.step p (.begin t) = some (p.setTx t {}) := by simp [Proto.step, htx]
-  refine hs.update t _ _ _ (hs.reach.next hstep) hs.idx hs.pend hs.names hs.wf ?_ ?_ ?_ (fun u _ => hs.thr u)
-  · rw [tx_setTx_same, absTx_nextPlan]
-  · exact inv_nextPlan (by simp) (by simp)
-  · intro u hu; exact tx_setTx_ne _ _ hu
+  split at h
+  · split at h <;> cases h
+    refine ⟨p.setTx t {}, hstep, ?_⟩
+    refine hs.update t _ _ _ (hs.reach.next hstep) hs.idx hs.pend hs.names hs.wf ?_ ?_ ?_ (fun u _ => hs.thr u)
+    · rw [tx_setTx_same, absTx_nextPlan]
+    · exact inv_nextPlan (by simp) (by simp)
+    · intro u hu; exact tx_setTx_ne _ _ hu
+  · split at h <;> cases h
+    rename_i k hk
+    refine ⟨p.setTx t {}, hstep, ?_⟩
+    refine hs.update t _ _ _ (hs.reach.next hstep) hs.idx hs.pend hs.names hs.wf ?_ ?_ ?_ (fun u _ => hs.thr u)
+    · rw [tx_setTx_same]; simp [absTx, holdsOf, waitingOf, committingOf]
+    · exact ⟨by simp [holdsOf], by simp [extra], by simp [Facts, hk], by simp⟩
+    · intro u hu; exact tx_setTx_ne _ _ hu
+  · cases h
 
 theorem case_idle (hs : Sim c p) (hpc : (c.loc t).pc = .idle)
     (h : tstep c.sh t (c.loc t) ch = some (s', l', e)) : Simulated c p t s' l' e := by
